@@ -582,6 +582,11 @@ def R5_shared_checks(run):
                             args = [strip(x) for x in s[2]]
                             if any(is_param(x, "tick_index") for x in args) and any(is_param(x, "tick_spacing") for x in args):
                                 seen.add(s[1].rsplit("::", 1)[-1])
+                        if s[0] == "call" and s[1].endswith("in_search_range") and len(s[2]) == 4 and const_val(s[2][3]) == 0:
+                            # check_in_array_bounds is in_search_range(tick_index, tick_spacing, false), written in place
+                            args = [strip(x) for x in s[2]]
+                            if any(is_param(x, "tick_index") for x in args) and any(is_param(x, "tick_spacing") for x in args):
+                                seen.add("check_in_array_bounds")
             run.check("R5", "%s@%s" % (m, label), seen == {"check_in_array_bounds", "check_is_usable_tick"}, "%s %s::%s rejects on %s, expected both bounds and usability" % (label, path, m, sorted(seen)), loc=fn.loc(),
                       detail="!in_bounds || !usable => TickNotFound")
     pf = "<pinocchio::state::whirlpool::tick_array::fixed_tick_array::MemoryMappedFixedTickArray as pinocchio::state::whirlpool::tick_array::TickArray>"
